@@ -88,6 +88,12 @@ pub fn aux(args: &[String]) -> i32 {
     match args.first().map(|s| s.as_str()) {
         Some("worker") => c12::worker_main(),
         Some("oneshot") => c11::oneshot_main(),
+        Some("fuzz") if args.len() >= 3 => {
+            let seed: u64 = std::env::var("VERIF_SEED").ok().and_then(|s| s.trim().parse().ok()).unwrap_or(1);
+            crate::fuzzrun::fuzz_main(&args[1], args[2].parse().unwrap_or(30), args.get(3).and_then(|s| s.parse().ok()).unwrap_or(2048), seed)
+        }
+        Some("fuzzjudge") if args.len() >= 3 => crate::fuzzrun::fuzzjudge_main(&args[1], &args[2]),
+        Some("fuzzcorpus") if args.len() >= 3 => crate::fuzzrun::fuzzcorpus_main(&args[1], &args[2]),
         Some("depth") if args.len() >= 3 => c12::depth_child(&args[1], args[2].parse().unwrap_or(1)),
         _ => {
             eprintln!("unknown subcommand");
